@@ -204,8 +204,6 @@ class E2EStream(Stream):
             after_end = state["post"]
             probs.append({"what": msg, "finding": FINDING_UNALIGNED if (trig and after_end) else None})
 
-        if obs["starts"] > 1:
-            probs.append({"what": f"restart: the fallback formula was started {obs['starts']} times", "finding": None})
         for tick, val in obs["out"]:
             # outputs computed after the primary stream failed: from the first one stamped beyond the
             # primary's last timestamp or not advancing any more
@@ -259,6 +257,8 @@ class E2EStream(Stream):
             state["post"] = t_end is None or c > t_end or c <= a
             add(c, f"timeline: emitted timestamps {a} -> {c} (step {d})")
             break
+        if obs["starts"] > 1:
+            probs.append({"what": f"restart: the fallback formula was started {obs['starts']} times", "finding": None})
         return probs
 
 
